@@ -861,10 +861,11 @@ __ywd_add_d(dt_ywd_t d, int n)
 }
 
 static dt_ywd_t
-__ywd_add_b(dt_ywd_t d, int UNUSED(n))
+__ywd_add_b(dt_ywd_t d, int n)
 {
-/* add N business days to D */
-	return d;
+/* add N business days to D
+ * reduce to _add_d() problem and dispatch */
+	return __ywd_add_d(d, __get_d_equiv((dt_dow_t)d.w, n));
 }
 
 static dt_ywd_t
